@@ -9,7 +9,7 @@ EXTENDS Pub
 
 CONSTANTS MIds, MaxLease, MaxWait
 
-MInit == \E id \in MIds : PStart(id, 10)
+MInit == \E id \in MIds : PStart(Cf(id, 10, 1, 1))
 
 Lid == Cardinality(Leases) + 1      \* the environment hands out leases 1, 2, 3, ...
 
@@ -21,9 +21,9 @@ MResumeCall == rw + rt < MaxWait /\ ResumeCallOK /\ ResumeCallEff
 MResumeRet  == ResumeRetOK /\ ResumeRetEff
 MStopCall   == quit # "closed" /\ StopCallOK /\ StopCallEff
 MStopRet    == StopRetOK /\ quit = "closing" /\ StopRetEff
-MGrant      == \E ok \in BOOLEAN : (ok => Lid <= MaxLease) /\ GrantOK(ttl, ok, Lid) /\ GrantEff(ok, Lid)
-MPut        == \E ok \in BOOLEAN : cur # 0 /\ PutOK(cur, IF pid > 0 THEN pid ELSE cur, ok)
-                                   /\ PutEff(cur, IF pid > 0 THEN pid ELSE cur, ok)
+MGrant      == \E ok \in BOOLEAN : (ok => Lid <= MaxLease) /\ GrantOK(cf.ttl, ok, Lid) /\ GrantEff(ok, Lid)
+MPut        == \E ok \in BOOLEAN : cur # 0 /\ PutOK(cur, cf.key, IF cf.id > 0 THEN cf.id ELSE cur, cf.val, ok)
+                                   /\ PutEff(cur, IF cf.id > 0 THEN cf.id ELSE cur, ok)
 MKalive     == \E ok \in BOOLEAN : cur # 0 /\ KaliveOK(cur, ok) /\ KaliveEff(cur, ok)
 MRevoke     == \E ok \in BOOLEAN : cur # 0 /\ RevokeOK(cur, ok) /\ RevokeEff(cur, ok)
 MClose      == \E L \in Leases : CloseOK(L) /\ CloseEff(L)
